@@ -147,10 +147,15 @@ CloneFrom(g, h) ==
   /\ pend' = [pend EXCEPT ![g] = IF CloneCopiesFlag THEN pend[h] ELSE ClonePend]
   /\ UNCHANGED <<alive, handed, dup, ntok>>
 
+(* set_rounds(r) - like every call that is not an output call - hands out nothing and leaves every claim, *)
+(* in particular a pending half, exactly as it is: a named stuttering step, so that the transition cover *)
+(* executes it in every state of the hand-out machine                                                    *)
+SetRounds(g) == g \in alive /\ UNCHANGED vars
+
 Init == /\ alive = {CHOOSE g \in Inst : \A h \in Inst : g <= h}
         /\ tok = [g \in Inst |-> 0] /\ pend = [g \in Inst |-> FALSE]
         /\ handed = {} /\ dup = FALSE /\ ntok = 0
-Next == \E g \in Inst : \/ NextU32(g) \/ NextU64(g)
+Next == \E g \in Inst : \/ NextU32(g) \/ NextU64(g) \/ SetRounds(g)
                         \/ \E n \in FillLens : Fill(g, n)
                         \/ \E h \in Inst : Clone(g, h) \/ CloneFrom(g, h)
 Spec == Init /\ [][Next]_vars
